@@ -1,24 +1,99 @@
+// gosmt: solver-based checks of fluffle/goirc (see /verif/DESIGN.md).
+//
+//	gosmt check <ID> [--tier quick|thorough] [--only harness] [--param k=v]
+//	gosmt replay <file.json>
+//	gosmt list
 package main
 
 import (
+	"flag"
 	"fmt"
-	"golang.org/x/tools/go/packages"
-	"golang.org/x/tools/go/ssa"
-	"golang.org/x/tools/go/ssa/ssautil"
+	"os"
+	"runtime"
+	"strconv"
+	"strings"
+	"time"
+
+	"verif/engine/sym"
 )
 
 func main() {
-	cfg := &packages.Config{Mode: packages.LoadAllSyntax, Dir: "/repo"}
-	pkgs, err := packages.Load(cfg, "./client", "./state", "./logging")
-	if err != nil {
-		panic(err)
+	if len(os.Args) < 2 {
+		usage()
 	}
-	prog, spkgs := ssautil.AllPackages(pkgs, ssa.InstantiateGenerics)
-	_ = prog
-	for _, p := range spkgs {
-		if p != nil {
-			p.Build()
-			fmt.Println(p.Pkg.Path())
+	switch os.Args[1] {
+	case "check":
+		os.Exit(cmdCheck(os.Args[2:]))
+	case "replay":
+		os.Exit(cmdReplay(os.Args[2:]))
+	case "list":
+		for _, c := range allChecks() {
+			fmt.Printf("%s\t%s\n", c.ID, c.Title)
 		}
+	default:
+		usage()
 	}
 }
+
+func usage() {
+	fmt.Fprintln(os.Stderr, "usage: gosmt check <ID> [--tier quick|thorough] | replay <file> | list")
+	os.Exit(2)
+}
+
+func envOr(k, d string) string {
+	if v := os.Getenv(k); v != "" {
+		return v
+	}
+	return d
+}
+
+func cmdCheck(args []string) int {
+	if len(args) < 1 {
+		usage()
+	}
+	id := args[0]
+	fs := flag.NewFlagSet("check", flag.ExitOnError)
+	tier := fs.String("tier", envOr("VERIF_TIER", "quick"), "quick|thorough")
+	only := fs.String("only", "", "run only harnesses whose name contains this")
+	workers := fs.Int("workers", runtime.NumCPU(), "worker count")
+	repo := fs.String("repo", envOr("VERIF_REPO", "/repo"), "repository root")
+	verifDir := fs.String("verif", envOr("VERIF_DIR", "/verif"), "verif root")
+	noReplay := fs.Bool("no-replay", false, "skip native replay of counterexamples")
+	var params multiFlag
+	fs.Var(&params, "param", "override harness parameter k=v")
+	fs.Parse(args[1:])
+	seed, _ := strconv.Atoi(envOr("VERIF_SEED", "0"))
+
+	var chk *Check
+	for _, c := range allChecks() {
+		if c.ID == id {
+			chk = c
+		}
+	}
+	if chk == nil {
+		fmt.Fprintf(os.Stderr, "unknown check %s\n", id)
+		return 2
+	}
+	t0 := time.Now()
+	prog, err := sym.Load(*repo, *verifDir+"/harness")
+	if err != nil {
+		fmt.Fprintf(os.Stderr, "BROKEN-CHECK property=%s cannot load %s: %v\n", id, *repo, err)
+		return 2
+	}
+	loadT := time.Since(t0)
+	run := &Runner{Check: chk, Tier: *tier, Seed: seed, Prog: prog, Repo: *repo, Verif: *verifDir, Workers: *workers,
+		Only: *only, NoReplay: *noReplay, Overrides: map[string]int{}, LoadTime: loadT}
+	for _, p := range params {
+		kv := strings.SplitN(p, "=", 2)
+		if len(kv) == 2 {
+			v, _ := strconv.Atoi(kv[1])
+			run.Overrides[kv[0]] = v
+		}
+	}
+	return run.Run()
+}
+
+type multiFlag []string
+
+func (m *multiFlag) String() string     { return strings.Join(*m, ",") }
+func (m *multiFlag) Set(s string) error { *m = append(*m, s); return nil }
